@@ -1,6 +1,6 @@
-CONSTANTS S = 16 Step = 1 MinN = 2 MaxN = 6 Degrees = {1, 2, 3}
+CONSTANTS S = 16 Families <- FamFull
 CONSTANTS UpperClosed = TRUE FirstClosed = TRUE
-INIT InitGrids
+INIT InitAll
 NEXT Next
 INVARIANT InvC34
 INVARIANT InvReject
